@@ -39,7 +39,7 @@ def run(tier, mode):
     dist = {l: 0 for l in P.LAYOUTS}
     n = 300 if tier == 'quick' else 5000
     for i in range(n):
-        D = P.gen_desc(r, multiline=(i % 7 == 0))
+        D = P.gen_desc(r, multiline=(i % 7 == 0), repeat=0.25)
         layout = P.LAYOUTS[i % 4]
         short = (i % 3 == 1)
         if short:   # short blocks and bare connectors: the Twp/Rge-desc-Sec vs Twp/Rge-Sec-desc decision is made on the length of the first block
